@@ -226,18 +226,20 @@ PROPS['C17'] = dict(
                 'the statement (count = 1 + own presses before the first foreign press; decide on timeout / foreign press / list exhausted; chosen action = '
                 'the N-th, the last if N reaches the length; queue keeps everything but own presses and all but the last own release, in order), for all '
                 'clocks, lists of 1..=4 actions, queues of <= 4 events over 3 keys; TapDanceEagerState methods completely.'),
-    level_note='Trusted: rustc, Kani + CBMC. Not decided: the eager path in Layout::dequeue; that the interrupting key is processed after the chosen action (Layout::waiting_into_tap).',
+    level_note='Trusted: rustc, Kani + CBMC, Verus + Z3. Not decided: Layout::do_action beyond the TapDance arm; that the interrupting key is processed after the chosen action (order of events inside Layout::tick).',
     technique='contract harnesses (Kani/CBMC): symbolic waiting state + bounded symbolic queue, counting oracle from the statement, queue frame',
     design_ref='DESIGN.md section 4, C17',
-    explanation='handle_tap_dance / tick_wt(TapDance) / TapDanceEagerState::{tick_tde,is_expired,set_expired,incr_taps}. Execution of the chosen action "exactly once": Verus unit waiting (shared with C05), waiting_into_tap with a TapDance config runs w.tap exactly once at the key coordinate with delay 0. do_action_tap_dance (FRAGMENT: the TapDance arm of Layout::do_action): the lazy form creates the pending count at ONE tap with the whole action list and timeout and runs nothing; the eager form runs the first listed action exactly once, now, under a counter that is fresh unless this key\'s counter is already running.',
-    verus=[dict(unit='waiting', only=['waiting_into_tap', 'do_action_tap_dance', 'lemma_sigs_push'])],
+    explanation='handle_tap_dance / tick_wt(TapDance) / TapDanceEagerState::{tick_tde,is_expired,set_expired,incr_taps}. Execution of the chosen action "exactly once": Verus unit waiting (shared with C05), waiting_into_tap with a TapDance config runs w.tap exactly once at the key coordinate with delay 0. do_action_tap_dance (FRAGMENT: the TapDance arm of Layout::do_action): the lazy form creates the pending count at ONE tap with the whole action list and timeout and runs nothing; the eager form runs the first listed action exactly once, now, under a counter that is fresh unless this key\'s counter is already running. dequeue_press (FRAGMENT: the Press arm of Layout::dequeue): a dequeued press runs exactly one action; while this key\'s eager counter runs (not expired) it is the action for the taps counted so far, and the counter is incremented and re-armed; a press of another REAL key ends the count (timeout := 0) before that key is resolved through the layers; a virtual key does not. tick_eager_counter (FRAGMENT of Layout::tick): the counter counts down and is dropped exactly when its timeout has passed or every listed action has been performed. TapDanceEagerState::{is_expired, set_expired, incr_taps, tick_tde} are under contract (also Kani: c17_k_eager_state).',
+    verus=[dict(unit='waiting', only=['waiting_into_tap', 'do_action_tap_dance', 'dequeue_press', 'tick_eager_counter', 'is_expired', 'set_expired', 'incr_taps', 'tick_tde', 'lemma_sigs_push'])],
     kani=[
         H('keyberon', 'layout', 'c17_b_handle_tap_dance', kind='bounded', bound='queue <= 4 events over 3 keys, lists 1..=4', functions=[L + 'WaitingState::handle_tap_dance']),
         H('keyberon', 'layout', 'c17_b_tick_wt_tap_dance', kind='bounded', bound='queue <= 4 events over 3 keys, lists 1..=4', functions=[L + 'WaitingState::tick_wt (TapDance arm)']),
         H('keyberon', 'layout', 'c17_k_eager_state', kind='complete', functions=[L + 'TapDanceEagerState::{tick_tde,is_expired,set_expired,incr_taps}']),
         H('keyberon', 'layout', 'c17_b_handle_tap_dance_neg', kind='bounded', expect='fail', covers='must-fail twin'),
     ],
-    assumptions=['eager path in Layout::dequeue and the ordering "interrupting key after the chosen action" (Layout::tick) are NOT under contract; waiting_into_tap is (Verus unit waiting: do_action stubbed, see C05)',
+    assumptions=['the ordering "interrupting key after the chosen action" (sequence of steps inside Layout::tick) is NOT under contract; waiting_into_tap, the TapDance arm of do_action, the Press arm of dequeue and the eager counter tick are (Verus unit waiting: do_action stubbed, see C05)',
+                 'ASSUMED about the do_action stub (from reading it): it never clears tap_dance_eager; it either leaves the counter alone or stores a fresh one with num_taps == 1',
+                 'a tap-dance lists fewer than 65535 actions (u16 tap counter): precondition of dequeue_press',
                  'queues longer than 4 events are not explored'],
     trusted_base=['rustc', 'Kani 0.68.0 / CBMC 6.11.0 / CaDiCaL'],
 )
